@@ -193,7 +193,8 @@ func (e *Enc) mapLenFacts(st *State, t types.Type, m string) {
 	k := e.q.freshBound("k")
 	l := sel(st.get(ln), m)
 	d := sel(st.get(dom), m)
-	st.assume(fmt.Sprintf("(and (>= %[1]s 0) (= (= %[1]s 0) (forall ((%[2]s %[3]s)) (not (select %[4]s %[2]s)))))", l, k, ks, d))
+	// no map holds 2^62 entries (it would not fit in memory)
+	st.assume(fmt.Sprintf("(and (>= %[1]s 0) (<= %[1]s 4611686018427387904) (= (= %[1]s 0) (forall ((%[2]s %[3]s)) (not (select %[4]s %[2]s)))))", l, k, ks, d))
 }
 
 func (e *Enc) lookup(fr *frame, st *State, x *ssa.Lookup) Value {
@@ -265,6 +266,11 @@ func (e *Enc) rangeInit(fr *frame, st *State, x *ssa.Range) Value {
 		it.keySort = e.u.sortOf(mt.Key())
 		it.ghost = fmt.Sprintf("visited_%s%s@(Array %s Bool)", fr.prefix, x.Name(), it.keySort)
 		e.ghostSet(st, it.ghost, "((as const (Array "+it.keySort+" Bool)) false)")
+		it.cntGhost = fmt.Sprintf("visited_n_%s%s@Int", fr.prefix, x.Name())
+		e.ghostSet(st, it.cntGhost, "0")
+		_, _, lnKey := e.mapKeys(x.X.Type())
+		e.mapLenFacts(st, x.X.Type(), v.term)
+		it.lenStart = e.q.define(fr.prefix+x.Name()+"_len0", sortInt, ite("(= "+v.term+" 0)", "0", sel(st.get(lnKey), v.term)))
 	} else {
 		it.isString = true
 		it.str = v.term
@@ -306,6 +312,15 @@ func (e *Enc) rangeNext(fr *frame, st *State, x *ssa.Next) Value {
 		st.assume(implies(ok, t))
 	}
 	e.ghostSet(st, it.ghost, ite(ok, store(vis, k, "true"), vis))
+	if cnt, has := st.ghost[it.cntGhost]; has && it.cntGhost != "" {
+		// a range over a map into which nothing is inserted meanwhile performs
+		// at most as many iterations as the map had entries when it started
+		if !e.loopInsertsInto(fr, x, it.mapVal.typ) {
+			st.assume(implies(ok, "(< "+cnt+" "+it.lenStart+")"))
+		}
+		st.assume("(>= " + cnt + " 0)")
+		e.ghostSet(st, it.cntGhost, ite(ok, "(+ "+cnt+" 1)", cnt))
+	}
 	kv := Value{term: k, typ: mt.Key()}
 	vv := Value{term: v, typ: mt.Elem()}
 	_ = tup
@@ -428,6 +443,8 @@ func (e *Enc) recvSiteFacts(fr *frame, st *State, ch, val Value, ok string, pos 
 	if con == nil || fr.inlined || fr.fn != e.top {
 		return
 	}
+	fr.curPos = pos
+	defer func() { fr.curPos = token.NoPos }()
 	for _, rs := range con.RecvSites {
 		if rs.Elem != "" {
 			tenv := e.frameEnv(fr, st)
@@ -713,6 +730,17 @@ func (e *Enc) loopHead(fr *frame, b *ssa.BasicBlock, li *loopInfo, st *State, np
 				st.assume("(" + cand.op + " " + nv.term + " " + cand.bound + ")")
 			}
 		}
+		// counter that is incremented by exactly one per iteration of a
+		// range-over-map loop equals the number of iterations so far
+		if cg := e.loopIterCountGhost(fr, li); cg != "" && unitCounterPhi(phi, li) {
+			id := fmt.Sprintf("%s|%s#%d|itercount:%s", funcDisplayName(e.top), fr.prefix, b.Index, phi.Name())
+			if !e.v.autoFrameOff[id] {
+				if cur, has := st.ghost[cg]; has {
+					autos = append(autos, autoInv{phi, "=", "ghost:" + cg, id})
+					st.assume("(= " + nv.term + " " + cur + ")")
+				}
+			}
+		}
 		_ = entryVal
 	}
 	if len(autos) > 0 {
@@ -807,11 +835,58 @@ func isIncrementOf(v ssa.Value, phi *ssa.Phi, depth int) bool {
 	return false
 }
 
+// loopInsertsInto: may the loop around the Next instruction insert into a map
+// of the given type (directly or through a call)?
+func (e *Enc) loopInsertsInto(fr *frame, nx *ssa.Next, mt types.Type) bool {
+	var li *loopInfo
+	for _, l := range fr.loops {
+		if l.blocks[nx.Block()] && (li == nil || len(l.blocks) < len(li.blocks)) {
+			li = l
+		}
+	}
+	if li == nil {
+		return true
+	}
+	_, valKey, _ := e.mapKeys(mt)
+	for b := range li.blocks {
+		for _, ins := range b.Instrs {
+			switch y := ins.(type) {
+			case *ssa.MapUpdate:
+				if types.Identical(y.Map.Type().Underlying(), mt.Underlying()) {
+					return true
+				}
+			case *ssa.Call, *ssa.Defer, *ssa.Go, *ssa.Send, *ssa.Select:
+				if c, ok := ins.(*ssa.Call); ok {
+					if b, isB := c.Common().Value.(*ssa.Builtin); isB && !c.Common().IsInvoke() {
+						if b.Name() != "clear" {
+							continue // delete/append/len/...: no insertion
+						}
+					}
+				}
+				keys, all, _ := e.v.instrWrites(e, ins, fr)
+				if all {
+					return true
+				}
+				for _, k := range keys {
+					if k == valKey {
+						return true
+					}
+				}
+			case *ssa.UnOp:
+				if y.Op == token.ARROW {
+					return true
+				}
+			}
+		}
+	}
+	return false
+}
+
 func (e *Enc) iterInLoop(fr *frame, li *loopInfo, ghostKey string) bool {
 	for b := range li.blocks {
 		for _, ins := range b.Instrs {
 			if nx, ok := ins.(*ssa.Next); ok {
-				if v, ok := fr.vals[nx.Iter]; ok && v.iter != nil && (v.iter.ghost == ghostKey || v.iter.posGhost == ghostKey) {
+				if v, ok := fr.vals[nx.Iter]; ok && v.iter != nil && (v.iter.ghost == ghostKey || v.iter.posGhost == ghostKey || v.iter.cntGhost == ghostKey) {
 					return true
 				}
 			}
@@ -840,7 +915,15 @@ func (e *Enc) loopBack(fr *frame, head *ssa.BasicBlock, li *loopInfo, from *ssa.
 		fr.vals[phi] = v
 	}
 	for _, a := range fr.autoInvs[head] {
-		cond := "(" + a.op + " " + fr.vals[a.phi].term + " " + a.bound + ")"
+		bound := a.bound
+		if strings.HasPrefix(bound, "ghost:") {
+			g, has := st.ghost[bound[6:]]
+			if !has {
+				continue
+			}
+			bound = g
+		}
+		cond := "(" + a.op + " " + fr.vals[a.phi].term + " " + bound + ")"
 		o := &Obligation{Name: "autoinv:" + a.id + fmt.Sprintf("@%d", from.Index), Kind: "autoframe", Func: funcDisplayName(e.top), reach: st.reach, cond: cond, Expect: a.id}
 		o.NDecls = len(e.q.decls)
 		e.autoObls = append(e.autoObls, o)
@@ -932,4 +1015,42 @@ func (e *Enc) mapInvTerm(st *State, t types.Type, v Value) string {
 		return e.evalClause(env, mi.Clause)
 	}
 	return "true"
+}
+
+// loopIterCountGhost: if the loop is a range over a map (its header holds the
+// Next instruction of a map iterator), the ghost that counts its iterations.
+func (e *Enc) loopIterCountGhost(fr *frame, li *loopInfo) string {
+	for _, ins := range li.head.Instrs {
+		if nx, ok := ins.(*ssa.Next); ok {
+			if v, ok := fr.vals[nx.Iter]; ok && v.iter != nil && !v.iter.isString {
+				return v.iter.cntGhost
+			}
+		}
+	}
+	return ""
+}
+
+// unitCounterPhi: i = phi [0 from outside, i+1 from every back edge], where
+// the increment is executed exactly once per iteration that continues.
+func unitCounterPhi(phi *ssa.Phi, li *loopInfo) bool {
+	blk := phi.Block()
+	for i, ed := range phi.Edges {
+		pred := blk.Preds[i]
+		if li.blocks[pred] {
+			bo, ok := ed.(*ssa.BinOp)
+			if !ok || bo.Op != token.ADD || bo.X != ssa.Value(phi) {
+				return false
+			}
+			c, ok := bo.Y.(*ssa.Const)
+			if !ok || c.Value == nil || c.Int64() != 1 {
+				return false
+			}
+		} else {
+			c, ok := ed.(*ssa.Const)
+			if !ok || c.Value == nil || c.Int64() != 0 {
+				return false
+			}
+		}
+	}
+	return true
 }
